@@ -93,23 +93,37 @@ class G:
                 return self._stp
             bits = p.bit_length()
             seen = set()
+            cands = []
             for W in (51, 64, 32, 56, 28, 52):
                 for i in range(0, bits // W + 1):
                     for d in (0, 1, -1):
                         j = W * i + d
                         if not (0 < j < bits):
                             continue
-                        for c in ((1 << j), p - (1 << j), (1 - (1 << j)) % p, (1 << j) - 1, (1 << j) + 1):
-                            if c in seen or not (0 <= c < p):
-                                continue
-                            seen.add(c)
-                            for sign in (0, 1):
-                                try:
-                                    P = self._try_decode(c, sign)
-                                except Exception:
-                                    P = None
-                                if P is not None and not self.is_neutral(P):
-                                    out.append(P)
+                        cands += [(1 << j), p - (1 << j), (1 - (1 << j)) % p, (1 << j) - 1, (1 << j) + 1]
+            # all limbs but one at the values they have in 0 / 1 / p / p+1, the remaining limb small: t * 2^(W*f) + {0, 1} and
+            # their negatives
+            for W in ((51, 64, 32) if bits < 300 else (56, 64, 28)):
+                for f_ in range(1, bits // W + 1):
+                    for t_ in range(2, 18):
+                        u = t_ << (W * f_)
+                        if u >= p:
+                            continue
+                        cands += [u, u + 1, p - u, (1 - u) % p]
+                        # low limbs equal to those of p (what "x - 0" or "y - z" looks like just before the final reduction)
+                        lowp = p & ((1 << (W * f_)) - 1)
+                        cands += [(lowp + u) % p, (lowp + u + 1) % p]
+            for c in cands:
+                if c in seen or not (0 <= c < p):
+                    continue
+                seen.add(c)
+                for sign in (0, 1):
+                    try:
+                        P = self._try_decode(c, sign)
+                    except Exception:
+                        P = None
+                    if P is not None and not self.is_neutral(P):
+                        out.append(P)
             self._stp = out
         return self._stp
 
